@@ -224,8 +224,50 @@ def no_eigen_random(ctx, rule='no-rand-based-eigen-random'):
     ctx.ok(rule, '<library>', '/repo/include/Spectra', 'no call of Eigen Random()/setRandom() in %d function bodies' % len(ctx.F.functions))
 
 
+def draws_advance_object(ctx, rule='draw-advances-the-generator-object'):
+    """Successive draws from one generator object form ONE Park-Miller sequence only if every draw advances the state stored in
+    the object: the state handed (by reference) to the scalar draw routine is the object's own field, or a local that was
+    loaded from the field and is stored back to it on every path from the draw to the function's exit."""
+    from . import paths
+    n = 0
+    for fn in ctx.F.concrete():
+        if fn.cls != 'Spectra::SimpleRandom' or not fn.cfg or fn.d.get('ctor'):
+            continue
+        rec = [r for r in ctx.F.records.values() if r['qname'] == fn.record and not r['dep']][0]
+        state = [f['name'] for f in rec['fields'] if f['type'] in ('long', 'unsigned long', 'int')]
+        if len(state) != 1:
+            raise AnalysisBroken('%s: generator state field not identified (%s)' % (fn.record, state))
+        st = state[0]
+        draws = [x for x in fn.walk() if x['k'] == 'CallExpr' and x.get('callee') in ('run', 'next_long_rand')]
+        if not draws:
+            continue
+        n += 1
+        problems = []
+        for c in draws:
+            a = fn.call_args(c)
+            r = fn.root_of(a[0]) if a else None
+            if r == ('field', st):
+                continue
+            if r is not None and r[0] == 'local':
+                vid = r[1]
+                backs = set(x['id'] for x in fn.walk() if x['k'] == 'BinaryOperator' and x.get('op') == '=' and
+                            fn.root_of(fn.nodes[x['c'][0]]) == ('field', st) and fn.root_of(fn.nodes[x['c'][1]]) == ('local', vid))
+                hit = paths.search(fn, [fn.pos_of(c)], stop=lambda m: m['id'] in backs, target=lambda m: m['k'] == 'ReturnStmt',
+                                   exit_is_target=lambda b: True, normal_only=True)
+                if hit is not None:
+                    problems.append('`%s` advances the local copy `%s` of the state, which is not stored back to %s on every path: the object does not advance and the next draw repeats' %
+                                    (fn.s(c['id'])[:50], fn.locals[vid]['name'], st))
+            else:
+                problems.append('`%s` does not draw from the object state %s' % (fn.s(c['id'])[:50], st))
+        ctx.check(not problems, rule, 'SimpleRandom::%s' % fn.name, fn.qname,
+                  '%d draw call(s) advance the object state %s itself' % (len(draws), st) if not problems else '; '.join(problems))
+    if n < 2:
+        raise AnalysisBroken('only %d drawing members of SimpleRandom analysed' % n)
+
+
 def run(ctx):
     ir_effects(ctx)
+    draws_advance_object(ctx)
     state_range(ctx)
     seed_normalisation(ctx)
     seed_provenance(ctx)
